@@ -1,11 +1,124 @@
 import StorageModel.Driver.Common
+import StorageModel.C03.Model
+import StorageModel.C03.Spec
 /- model driver for C03: `run spec` reads case lines on stdin and prints one output line per case
-   (spec = false: the engine model's output; spec = true: the spec's verdict). -/
+   (spec = false: the engine model's output; spec = true: the spec's verdict).
+   Line protocol: see /verif/harness/c03.go. -/
 namespace StorageModel.Driver.C03
-open StorageModel.Driver
+open StorageModel StorageModel.Driver StorageModel.C03
 
-def step (_line : String) : String := "not-implemented"
-def specStep (_line : String) : String := "not-implemented"
+def hexB (b : Bytes) : String := Bytes.toWire b
+
+def listW (l : List Bytes) : String :=
+  if l.isEmpty then "." else "+".intercalate (l.map hexB)
+
+def parseList (s : String) : Option (List Bytes) :=
+  if s = "." then some [] else (s.splitOn "+").mapM Bytes.ofHex
+
+def parseOpt (s : String) : Option (Option Bytes) :=
+  if s = "~" then some none else (Bytes.ofHex s).map some
+
+def parseChk (s : String) : Option Checker :=
+  if s = "*" then none
+  else some ⟨s.toList.contains 'n', s.toList.contains 'a', s.toList.contains 'r'⟩
+
+def parseOp (s : String) : Option Op :=
+  match s.splitOn ":" with
+  | ["c", id, n, a, r] => do
+    pure (.create (← Bytes.ofHex id) ⟨← Bytes.ofHex n, ← parseOpt a, ← parseList r⟩)
+  | ["u", id, n, a, r, c] => do
+    pure (.update (← Bytes.ofHex id) ⟨← Bytes.ofHex n, ← parseOpt a, ← parseList r⟩ (parseChk c))
+  | ["d", id] => do pure (.delete (← Bytes.ofHex id))
+  | _ => none
+
+def parseTxs (s : String) : Option (List (List Op)) :=
+  (s.splitOn "|").mapM fun t => (t.splitOn ",").mapM parseOp
+
+def errName : Err → String
+  | .dup => "dup" | .nullNotAllowed => "null" | .notFound => "notfound"
+  | .exists => "exists" | .refExists => "refexists" | .other => "other" | .panic => "panic"
+
+def pathW (p : List Bytes) : String := "/".intercalate (p.map hexB)
+
+def lineW : Line → String
+  | .bucket p => "B:" ++ pathW p
+  | .kv p k v => "K:" ++ pathW (p ++ [k]) ++ "=" ++ hexB v
+
+def sortStrings (l : List String) : List String := l.mergeSort (fun a b => decide (a ≤ b))
+
+def dumpW (ls : List Line) : String :=
+  if ls.isEmpty then "." else ",".intercalate (sortStrings (ls.map lineW))
+
+def optIdW : Option Bytes → String
+  | none => "~"
+  | some b => hexB b
+
+/-- `ReadIndex.Read`, `SetReadIndex.Read` (ids sorted), `ReadKeys` -/
+def readsW (vals : List Bytes) (uName uAlias : Map Bytes Id) (sRoles : Map Bytes (List Id)) : String :=
+  let per := vals.map fun v =>
+    "n:" ++ hexB v ++ "=" ++ optIdW (uName.lookup v) ++ ";a:" ++ hexB v ++ "=" ++ optIdW (uAlias.lookup v) ++
+    ";r:" ++ hexB v ++ "=" ++ listW (setOf ((sRoles.lookup v).getD [])) ++ ";"
+  String.join per ++ "k=" ++ listW (setOf (Map.keys sRoles))
+
+def logW (calls : List (Id × List Bytes × List Bytes)) : String :=
+  if calls.isEmpty then "."
+  else ",".intercalate (calls.map fun c => hexB c.1 ++ ":" ++ listW c.2.1 ++ ":" ++ listW c.2.2)
+
+/-- listener calls of a transaction body, including those of the failing operation -/
+def txLog : State → List Op → List (Id × List Bytes × List Bytes)
+  | _, [] => []
+  | s, op :: rest =>
+    listenerCalls s op ++ (match stepRaw s op with
+      | .ok s' => txLog s' rest
+      | .error _ => [])
+
+def resW (s : State) (ops : List Op) : String :=
+  match applyOps s ops 0 with
+  | .ok _ => "ok"
+  | .error (i, e) => "err:" ++ errName e ++ "@" ++ toString i
+
+def runModel (vals : List Bytes) (txs : List (List Op)) : String :=
+  let rec go (s : State) (prev : String) (txs : List (List Op)) (acc : List String) : List String :=
+    match txs with
+    | [] => acc.reverse
+    | ops :: rest =>
+      let s' := (txStep s ops).1
+      let dump := dumpW (Render s')
+      let shown := if dump == prev then "=" else dump
+      let rec_ := resW s ops ++ "#" ++ shown ++ "#" ++ readsW vals s'.uName s'.uAlias s'.sRoles ++ "#" ++ logW (txLog s ops)
+      go s' dump rest (rec_ :: acc)
+  "|".intercalate (go State.empty "" txs [])
+
+/-! spec side: the entity table alone; indexes, reads and dump are *derived* from it -/
+
+def specResW (t : Spec.SState) (ops : List Op) : String :=
+  match Spec.applyOps t ops 0 with
+  | .ok _ => "ok"
+  | .error (i, es) => "err:" ++ "/".intercalate (es.map errName) ++ "@" ++ toString i
+
+def runSpec (vals : List Bytes) (txs : List (List Op)) : String :=
+  let rec go (t : Spec.SState) (prev : String) (txs : List (List Op)) (acc : List String) : List String :=
+    match txs with
+    | [] => acc.reverse
+    | ops :: rest =>
+      let t' := (Spec.txStep t ops).1
+      let dump := dumpW (Spec.render t')
+      let shown := if dump == prev then "=" else dump
+      let rec_ := specResW t ops ++ "#" ++ shown ++ "#" ++
+        readsW vals (Spec.nameIndex t'.ents) (Spec.aliasIndex t'.ents) (Spec.rolesIndex t'.ents) ++ "#-"
+      go t' dump rest (rec_ :: acc)
+  "|".intercalate (go Spec.SState.empty "" txs [])
+
+def stepWith (f : List Bytes → List (List Op) → String) (line : String) : String :=
+  match splitSp line with
+  | ["h", vals, txs] =>
+    match parseList vals, parseTxs txs with
+    | some vs, some ts => f vs ts
+    | _, _ => "bad-case"
+  | _ => "bad-case"
+
+def step (line : String) : String := stepWith runModel line
+def specStep (line : String) : String := stepWith runSpec line
 
 def run (spec : Bool) : IO Unit := forEachLine (if spec then specStep else step)
 
